@@ -1,5 +1,6 @@
 """C18 — Backups restore byte-for-byte and are never half-valid."""
 import json
+import io
 import os
 import shutil
 import tempfile
@@ -58,7 +59,7 @@ def tree(draw):
         files[rel] = draw(st.sampled_from([tsv(draw(st.integers(0, 4)), f"t{i}"), "", "onset\tduration\n"]))
     if draw(st.booleans()):
         files["derivatives/other/sub-01_task-go_events.tsv"] = tsv(2, "decoy")
-    everything = draw(st.booleans())
+    everything = draw(st.integers(0, 2)) > 0
     selected = [f for f in sorted(files) if not f.startswith("derivatives/") and (everything or draw(st.integers(0, 4)) > 0)]
     if not selected:
         selected = [sorted(f for f in files if not f.startswith("derivatives/"))[0]]
@@ -72,7 +73,7 @@ def history_case(draw):
     ops = []
     for _ in range(draw(st.integers(1, 8))):
         kind = draw(st.sampled_from(["modify", "modify", "delete", "delete_dir", "restore", "restore", "restore_tasks",
-                                     "create_again", "reopen", "remodel", "add_file"]))
+                                     "create_again", "reopen", "remodel", "add_file", "modify_quietly", "read_source"]))
         f = draw(st.sampled_from(sorted(t["files"])))
         ops.append({"op": kind, "file": f, "content": draw(st.sampled_from([tsv(2, "mod"), "", "x\ty\n1\t2\n"])),
                     "tasks": list(draw(st.sets(st.sampled_from(TASKS), min_size=1, max_size=2)))})
@@ -133,6 +134,45 @@ def oracle_history(case):
                 with open(p, "wb") as fp:
                     fp.write(op["content"].encode())
                 changed_between = True
+            elif k == "modify_quietly":
+                # edited in place: same length, timestamps put back (cp -p, rsync -t, coarse clocks)
+                if os.path.isfile(p) and os.path.getsize(p) > 0:
+                    st_ = os.stat(p)
+                    data = read(p)
+                    flipped = bytes([data[0] ^ 1]) + data[1:] if data[:1] not in (b"\t", b"\n") else b"X" + data[1:]
+                    with open(p, "wb") as fp:
+                        fp.write(flipped)
+                    os.utime(p, ns=(st_.st_atime_ns, st_.st_mtime_ns))
+                    changed_between = True
+                    classes.add("quiet-edit")
+            elif k == "read_source":
+                # the remodeler's source for a backed-up file is the backup copy, however the path is spelled
+                from hed.tools.remodeling.dispatcher import Dispatcher
+                if op["file"] in model and model[op["file"]].strip():
+                    disp = Dispatcher([], data_root=root, backup_name=name)
+                    spellings = [p, os.path.join(root, ".", op["file"]),
+                                 os.path.join(os.path.dirname(p), "..", os.path.basename(os.path.dirname(p)),
+                                              os.path.basename(p)),
+                                 root + os.sep + os.sep + op["file"]]
+                    link = root + "_link"
+                    if not os.path.exists(link):
+                        os.symlink(root, link)
+                    spellings.append(os.path.join(link, op["file"]))
+                    import pandas as pd
+                    want = pd.read_csv(io.BytesIO(model[op["file"]]), sep="\t", header=0, keep_default_na=False)
+                    for sp in spellings:
+                        try:
+                            got_df = disp.get_data_file(sp)
+                        except Exception as exc:  # noqa
+                            out.bad("source-read-raises:" + type(exc).__name__, f"{sp}: {exc!r}"[:300])
+                            break
+                        if list(got_df.columns) != list(want.columns) or \
+                                got_df.astype(str).values.tolist() != want.astype(str).values.tolist():
+                            out.bad("remodel-source-is-not-the-backup-copy", f"path spelled {sp!r} (root {root!r}); "
+                                                                              f"file currently {read(p)[:60]!r}")
+                            break
+                    os.unlink(link)
+                    classes.add("source-read")
             elif k == "add_file":
                 q = p + ".new_events.tsv"
                 os.makedirs(os.path.dirname(q), exist_ok=True)
@@ -372,5 +412,5 @@ def describe(case):
 
 def parts(tier):
     q = tier == "quick"
-    return [Part("history", oracle_history, strategy=history_case(), n=160 if q else 16000, describe=describe),
+    return [Part("history", oracle_history, strategy=history_case(), n=320 if q else 16000, describe=describe),
             Part("crash", oracle_crash, strategy=tree(), n=40 if q else 4800, describe=describe)]
